@@ -12,6 +12,7 @@ import (
 	kmip "github.com/ovh/kmip-go"
 	"github.com/ovh/kmip-go/kmipserver"
 	"github.com/ovh/kmip-go/payloads"
+	"github.com/ovh/kmip-go/ttlv"
 	"pgregory.net/rapid"
 
 	"verif/harness/evid"
@@ -50,6 +51,12 @@ type c09Case struct {
 	CountOff int    `json:"batch_count_offset"`
 	IDs      string `json:"ids"` // none | all | some
 	PanicVal string `json:"panic_value,omitempty"`
+	// PlainErr: what the items with outcome "plain error" return: "" = errors.New, typed-nil = a nil pointer of an error
+	// type with pointer receiver, error-that-panics = an error whose Error method panics
+	PlainErr string `json:"plain_error_value,omitempty"`
+	// Transport: "" = the request is handed to HandleRequest as built; binary | xml | json = it first travels as the
+	// socket server and the HTTP handler receive it: encoded, then decoded by the library into a fresh RequestMessage
+	Transport string `json:"request_travels_as,omitempty"`
 }
 
 type stringer struct{ s string }
@@ -64,7 +71,7 @@ type callLog struct {
 	onCall func(idx int)
 }
 
-func newExecutor(log *callLog, panicVal string) *kmipserver.BatchExecutor {
+func newExecutor(log *callLog, panicVal string, plainErr ...string) *kmipserver.BatchExecutor {
 	exec := kmipserver.NewBatchExecutor()
 	exec.Route(kmip.OperationActivate, kmipserver.HandleFunc(func(ctx context.Context, req *payloads.ActivateRequestPayload) (*payloads.ActivateResponsePayload, error) {
 		// identifier = "<index>:<outcome>"
@@ -82,20 +89,12 @@ func newExecutor(log *callLog, panicVal string) *kmipserver.BatchExecutor {
 		case oTyped:
 			return nil, kmipserver.Errorf(kmip.ResultReasonItemNotFound, "not found")
 		case oPlain:
+			if len(plainErr) > 0 {
+				return nil, plainError(plainErr[0])
+			}
 			return nil, errors.New("plain failure")
 		case oPanic:
-			switch panicVal {
-			case "error":
-				panic(errors.New("boom"))
-			case "int":
-				panic(42)
-			case "stringer":
-				panic(stringer{"boom"})
-			case "nil":
-				panic(nil)
-			default:
-				panic("boom")
-			}
+			panicWith(panicVal)
 		}
 		return &payloads.ActivateResponsePayload{UniqueIdentifier: req.UniqueIdentifier}, nil
 	}))
@@ -184,7 +183,7 @@ func c09Run(c c09Case) (sig string, err error) {
 		other := kmipserver.NewBatchExecutor()
 		other.SetSupportedProtocolVersions(parseVersions(o)...)
 	}
-	exec := newExecutor(log, c.PanicVal)
+	exec := newExecutor(log, c.PanicVal, c.PlainErr)
 	if len(c.Supported) > 0 {
 		exec.SetSupportedProtocolVersions(parseVersions(c.Supported)...)
 	}
@@ -203,6 +202,35 @@ func c09Run(c c09Case) (sig string, err error) {
 		}
 	}
 	req := buildRequest(c)
+	orig := req
+	if c.Transport != "" {
+		var wire []byte
+		var r2 kmip.RequestMessage
+		var derr error
+		perr := safely(func() error {
+			switch c.Transport {
+			case "xml":
+				wire = append([]byte{}, ttlv.MarshalXML(req)...)
+				derr = ttlv.UnmarshalXML(wire, &r2)
+			case "json":
+				wire = append([]byte{}, ttlv.MarshalJSON(req)...)
+				derr = ttlv.UnmarshalJSON(wire, &r2)
+			default:
+				wire = append([]byte{}, ttlv.MarshalTTLV(req)...)
+				derr = ttlv.UnmarshalTTLV(wire, &r2)
+			}
+			return nil
+		})
+		if perr != nil {
+			return "request-transport-panics", perr
+		}
+		if derr != nil && c.CountOff != 0 {
+			return "", nil // refused by the decoder already: rejected as a whole, no handler executed
+		}
+		if derr == nil {
+			req = &r2
+		}
+	}
 	var resp *kmip.ResponseMessage
 	rctx, cancel := context.WithCancel(context.Background())
 	defer cancel()
@@ -241,18 +269,18 @@ func c09Run(c c09Case) (sig string, err error) {
 	if int(resp.Header.BatchCount) != n {
 		return "batch-count", fmt.Errorf("response batch count %d for %d items", resp.Header.BatchCount, n)
 	}
-	if resp.Header.ProtocolVersion != req.Header.ProtocolVersion {
-		return "version-echo", fmt.Errorf("response version %v, request %v", resp.Header.ProtocolVersion, req.Header.ProtocolVersion)
+	if resp.Header.ProtocolVersion != orig.Header.ProtocolVersion {
+		return "version-echo", fmt.Errorf("response version %v, request %v", resp.Header.ProtocolVersion, orig.Header.ProtocolVersion)
 	}
 	var wantCalls []int
 	stopped := false
 	for i, o := range c.Outcomes {
 		it := resp.BatchItem[i]
-		if it.Operation != req.BatchItem[i].Operation {
-			return "operation-echo", fmt.Errorf("item %d echoes operation %v, request has %v", i, it.Operation, req.BatchItem[i].Operation)
+		if it.Operation != orig.BatchItem[i].Operation {
+			return "operation-echo", fmt.Errorf("item %d echoes operation %v, request has %v", i, it.Operation, orig.BatchItem[i].Operation)
 		}
-		if string(it.UniqueBatchItemID) != string(req.BatchItem[i].UniqueBatchItemID) {
-			return "id-echo", fmt.Errorf("item %d echoes id %x, request has %x", i, it.UniqueBatchItemID, req.BatchItem[i].UniqueBatchItemID)
+		if string(it.UniqueBatchItemID) != string(orig.BatchItem[i].UniqueBatchItemID) {
+			return "id-echo", fmt.Errorf("item %d echoes id %x, request has %x", i, it.UniqueBatchItemID, orig.BatchItem[i].UniqueBatchItemID)
 		}
 		if stopped {
 			if it.ResultStatus == kmip.ResultStatusSuccess {
@@ -311,7 +339,7 @@ var c09Sets = [][]string{{"1.4", "1.2"}, {"1.2"}, {"1.0", "1.3"}, {"1.1", "1.2",
 
 func TestC09Exhaustive(t *testing.T) {
 	const name = "TestC09Exhaustive"
-	rec := evid.New("C09", name, "all batches of length 0..3 over the seven item outcomes (incl. a Discover Versions item answered by the executor itself) x option {unset, Continue, Stop, Undo} x version {each of 1.0..1.4 on a default executor, unsupported 0.9/1.5/2.0/3.1, inside/outside one of six restricted sets; in a third of the cases another executor was given a restricted set just before; in a quarter one or two DiscoverVersions requests with partial version lists were served before, by this or another default executor} x batch count offset {-1,0,+1} x ids {none, all, some}; in two fifths of the cases the request context is already cancelled on entry or is cancelled while the 1st..3rd handler runs, "+
+	rec := evid.New("C09", name, "all batches of length 0..3 over the seven item outcomes (incl. a Discover Versions item answered by the executor itself) x option {unset, Continue, Stop, Undo} x version {each of 1.0..1.4 on a default executor, unsupported 0.9/1.5/2.0/3.1, inside/outside one of six restricted sets; in a third of the cases another executor was given a restricted set just before; in a quarter one or two DiscoverVersions requests with partial version lists were served before, by this or another default executor} x batch count offset {-1,0,+1} x ids {none, all, some}; four cases in seven the request first travels through the codec (binary, XML or JSON), as the socket server and the HTTP handler receive it; in two fifths of the cases the request context is already cancelled on entry or is cancelled while the 1st..3rd handler runs, "+
 		"each executed once against a fresh BatchExecutor and compared with the executable model of the KMIP batch semantics; non-trivial = >= 2 items with a failing item that is not last, or a rejected request with >= 1 item; distinct by case").Attach(t)
 	rec.Exhaustive(true)
 	if rp := evid.LoadReplay(name); rp != nil {
@@ -338,7 +366,7 @@ func TestC09Exhaustive(t *testing.T) {
 	for n := 0; n <= 3; n++ {
 		build(nil, n)
 	}
-	panicVals := []string{"string", "error", "int", "stringer", "nil"}
+	panicVals := panicKinds
 	k := 0
 	for _, l := range lists {
 		for opt := 0; opt <= 3; opt++ {
@@ -349,7 +377,7 @@ func TestC09Exhaustive(t *testing.T) {
 							continue
 						}
 						k++
-						c := c09Case{Outcomes: l, Option: opt, CountOff: off, IDs: ids, PanicVal: panicVals[k%len(panicVals)]}
+						c := c09Case{Outcomes: l, Option: opt, CountOff: off, IDs: ids, PanicVal: panicVals[k%len(panicVals)], PlainErr: plainErrorKinds[(k/3)%len(plainErrorKinds)], Transport: []string{"", "binary", "xml", "json", "", "binary", ""}[k%7]}
 						switch ver {
 						case "supported":
 							c.ReqVersion = c09Default[k%5]
@@ -401,7 +429,7 @@ func TestC09Exhaustive(t *testing.T) {
 
 func TestC09Random(t *testing.T) {
 	const name = "TestC09Random"
-	rec := evid.New("C09", name, "rapid: batches of 4..12 items with drawn outcomes, option, request version, supported set of this executor and of up to two other executors configured before it, up to three DiscoverVersions requests served before the batch, batch count offset, id mode, panic value and the moment (if any) at which the request context is cancelled; same model; "+
+	rec := evid.New("C09", name, "rapid: batches of 4..12 items with drawn outcomes, option, request version, supported set of this executor and of up to two other executors configured before it, up to three DiscoverVersions requests served before the batch, batch count offset, id mode, panic value, the way the request reaches the executor (as built, or through the binary, XML or JSON codec) and the moment (if any) at which the request context is cancelled; same model; "+
 		"non-trivial as in TestC09Exhaustive; distinct by case").Attach(t)
 	if rp := evid.LoadReplay(name); rp != nil {
 		var c c09Case
@@ -420,7 +448,9 @@ func TestC09Random(t *testing.T) {
 			ReqVersion: rapid.SampledFrom([]string{"1.0", "1.1", "1.2", "1.3", "1.4", "1.0", "1.1", "1.2", "1.3", "1.4", "1.5", "2.0", "0.9"}).Draw(rt, "reqversion"),
 			CountOff:   rapid.SampledFrom([]int{0, 0, 0, 0, -1, 1, 5}).Draw(rt, "countoff"),
 			IDs:        rapid.SampledFrom([]string{"none", "all", "some"}).Draw(rt, "ids"),
-			PanicVal:   rapid.SampledFrom([]string{"string", "error", "int", "stringer", "nil"}).Draw(rt, "panicval"),
+			PanicVal:   rapid.SampledFrom(panicKinds).Draw(rt, "panicval"),
+			PlainErr:   rapid.SampledFrom(plainErrorKinds).Draw(rt, "plainerr"),
+			Transport:  rapid.SampledFrom([]string{"", "", "binary", "binary", "xml", "json"}).Draw(rt, "transport"),
 		}
 		if rapid.IntRange(0, 2).Draw(rt, "mostlysuccess") == 0 {
 			for i := range c.Outcomes {
